@@ -297,6 +297,13 @@ func init() {
 				}
 			}
 		}
+		{
+			// comment-less methods reached through an embedded plain interface whose OWN doc comment looks like notations:
+			// they have no notations at all (alphabet entry 0), both of them
+			plain := "// basics is shared.\n// :typecast\n// :skip N\n// :style arg\ntype basics interface {\n\tMaa(*S) *D\n\tMbb(*S) *D\n}\n"
+			embI := c09Intf("Convergen", nil, []string{"\tbasics\n"})
+			jobsB = append(jobsB, jobB{"embedded-doc_0_0", c09Setup([]string{plain, embI}), []string{"Maa", "Mbb"}, []int{0, 0}})
+		}
 		if th {
 			for i := 0; i < n; i++ {
 				for j := 0; j < n; j++ {
